@@ -49,7 +49,7 @@ type Config struct {
 
 type BadEnt struct {
 	Pos  int    `json:"pos"`
-	Kind int    `json:"kind"` // 0 non-JSON bytes, 1 wrong status, 2 JSON of another type, 3 non-[]byte item, 4 truncated JSON
+	Kind int    `json:"kind"` // 0 non-JSON bytes, 1 wrong status, 2 JSON of another type, 3 non-[]byte item, 4 truncated JSON, 5 valid entry + trailing garbage, 6 two entries glued
 }
 
 // Item is one submission.
